@@ -35,6 +35,7 @@ type Gen struct {
 	occ      map[*ssa.Function]map[string][]token.Pos
 	src      map[string][]byte
 	funcs    map[string]*ssa.Function
+	sweep    []sweepItem // contract-less functions to analyse for crash-freedom only
 	typesPkg map[string]*types.Package
 	callees  map[*ssa.Function][]*ssa.Function
 	repoDir  string
@@ -574,4 +575,19 @@ func (g *Gen) schemaMismatch(fx *fnExec, encRef, decRef string) string {
 		}
 	}
 	return ""
+}
+
+type sweepItem struct {
+	fn    *ssa.Function
+	props []string
+}
+
+// queueSweep schedules a contract-less function of this module for a crash-freedom-only analysis.
+func (g *Gen) queueSweep(fn *ssa.Function, props []string) {
+	for _, it := range g.sweep {
+		if it.fn == fn {
+			return
+		}
+	}
+	g.sweep = append(g.sweep, sweepItem{fn, props})
 }
